@@ -223,31 +223,61 @@ pub const TRY_REF: u16 = 4000;
 pub const BUMP_U8: u8 = 100;
 pub const BUMP_CV: u16 = 10000;
 
-pub fn from_inc(x: P<u8>) -> Cv {
-    log(Event::UserFn(UserCall::Conv { fn_name: "from_inc", arg: x.0, ok: true }));
-    Cv(x.0 as u16 + FROM_INC)
+/// Intermediate values the field conversions accept: `P<u8>` and `Option<P<u8>>` (an absent
+/// content counts as `NONE_ARG`).
+pub trait ConvIn {
+    fn n(&self) -> u8;
 }
-pub fn from_ref(x: &P<u8>) -> Cv {
-    log(Event::UserFn(UserCall::Conv { fn_name: "from_ref", arg: x.0, ok: true }));
-    Cv(x.0 as u16 + FROM_REF)
-}
-pub fn try_even(x: P<u8>) -> Result<Cv, ConvErr> {
-    let ok = x.0 % 2 == 0;
-    log(Event::UserFn(UserCall::Conv { fn_name: "try_even", arg: x.0, ok }));
-    if ok {
-        Ok(Cv(x.0 as u16 + TRY_EVEN))
-    } else {
-        Err(ConvErr { fn_name: "try_even".into(), arg: Doc::Int(x.0 as u64) })
+pub const NONE_ARG: u8 = 201;
+impl ConvIn for P<u8> {
+    fn n(&self) -> u8 {
+        self.0
     }
 }
-pub fn try_ref(x: &P<u8>) -> Result<Cv, ConvErr> {
-    let ok = x.0 % 2 == 0;
-    log(Event::UserFn(UserCall::Conv { fn_name: "try_ref", arg: x.0, ok }));
-    if ok {
-        Ok(Cv(x.0 as u16 + TRY_REF))
-    } else {
-        Err(ConvErr { fn_name: "try_ref".into(), arg: Doc::Int(x.0 as u64) })
+impl ConvIn for Option<P<u8>> {
+    fn n(&self) -> u8 {
+        self.map(|p| p.0).unwrap_or(NONE_ARG)
     }
+}
+
+pub fn from_inc<T: ConvIn>(x: T) -> Cv {
+    log(Event::UserFn(UserCall::Conv { fn_name: "from_inc", arg: x.n(), ok: true }));
+    Cv(x.n() as u16 + FROM_INC)
+}
+pub fn from_ref<T: ConvIn>(x: &T) -> Cv {
+    log(Event::UserFn(UserCall::Conv { fn_name: "from_ref", arg: x.n(), ok: true }));
+    Cv(x.n() as u16 + FROM_REF)
+}
+pub fn try_even<T: ConvIn>(x: T) -> Result<Cv, ConvErr> {
+    let ok = x.n() % 2 == 0;
+    log(Event::UserFn(UserCall::Conv { fn_name: "try_even", arg: x.n(), ok }));
+    if ok {
+        Ok(Cv(x.n() as u16 + TRY_EVEN))
+    } else {
+        Err(ConvErr { fn_name: "try_even".into(), arg: Doc::Int(x.n() as u64) })
+    }
+}
+pub fn try_ref<T: ConvIn>(x: &T) -> Result<Cv, ConvErr> {
+    let ok = x.n() % 2 == 0;
+    log(Event::UserFn(UserCall::Conv { fn_name: "try_ref", arg: x.n(), ok }));
+    if ok {
+        Ok(Cv(x.n() as u16 + TRY_REF))
+    } else {
+        Err(ConvErr { fn_name: "try_ref".into(), arg: Doc::Int(x.n() as u64) })
+    }
+}
+
+pub fn from_inc_o<T: ConvIn>(x: T) -> Option<Cv> {
+    Some(from_inc(x))
+}
+pub fn from_ref_o<T: ConvIn>(x: &T) -> Option<Cv> {
+    Some(from_ref(x))
+}
+pub fn try_even_o<T: ConvIn>(x: T) -> Result<Option<Cv>, ConvErr> {
+    try_even(x).map(Some)
+}
+pub fn try_ref_o<T: ConvIn>(x: &T) -> Result<Option<Cv>, ConvErr> {
+    try_ref(x).map(Some)
 }
 
 /// Container-level `from`: wraps the dump of the intermediate value.
